@@ -39,7 +39,6 @@ def modes : List Mode := []
   ++ [Drv.TableApi.mode]
   ++ [Drv.T2Db.mode]
   ++ Drv.C15.modes
-  ++ [Drv.Lib1.mode, Drv.Lib1.oracle]
   ++ [Drv.Lib2.mode]
 
 def dispatch (line : String) : String :=
